@@ -29,28 +29,30 @@ publish = false
 [workspace]
 
 [dependencies]
-unic-langid = {{ path = "{repo}/unic-langid", features = ["macros"] }}
-unic-locale = {{ path = "{repo}/unic-locale", features = ["macros"] }}
+unic-langid = {{ path = "{repo}/unic-langid", features = [{feats}] }}
+unic-locale = {{ path = "{repo}/unic-locale", features = [{feats_loc}] }}
 unic-langid-impl = {{ path = "{repo}/unic-langid-impl" }}
 unic-locale-impl = {{ path = "{repo}/unic-locale-impl" }}
 serde_json = "1.0"
 """
 
 
-def crate_dir(name):
+def crate_dir(name, features=("macros",)):
     d = os.path.join(WORK, "macrogen", name)
     shutil.rmtree(d, ignore_errors=True)
     os.makedirs(os.path.join(d, "src"))
-    open(os.path.join(d, "Cargo.toml"), "w").write(CARGO.format(name=name, repo=REPO))
+    feats = ", ".join('"%s"' % f for f in features)
+    feats_loc = ", ".join('"%s"' % f for f in features if f != "serde")      # unic-locale has no serde feature
+    open(os.path.join(d, "Cargo.toml"), "w").write(CARGO.format(name=name, repo=REPO, feats=feats, feats_loc=feats_loc))
     shutil.copy(os.path.join(HARNESS, "Cargo.lock"), d)
     os.makedirs(os.path.join(d, ".cargo"))
     open(os.path.join(d, ".cargo", "config.toml"), "w").write("[net]\noffline = true\n")
     return d
 
 
-def cargo_env():
+def cargo_env(tag=""):
     env = dict(os.environ)
-    env["CARGO_TARGET_DIR"] = os.path.join(WORK, "target-macros")
+    env["CARGO_TARGET_DIR"] = os.path.join(WORK, "target-macros" + tag)
     env["CARGO_NET_OFFLINE"] = "true"
     return env
 
@@ -84,9 +86,11 @@ fn loc(m: &str, lit: &str, v: std::thread::Result<Locale>) {
 '''
 
 
-def gen_ok_crate(li_lits, loc_lits, subs):
-    """li_lits / loc_lits: lists of literal strings; subs: list of (kind, literal)."""
-    d = crate_dir("macros_ok")
+def gen_ok_crate(li_lits, loc_lits, subs, features=("macros",), name="macros_ok", long_lists=()):
+    """li_lits / loc_lits: lists of literal strings; subs: list of (kind, literal); long_lists: lists of language-identifier
+    literals, each passed to ONE langids! / langid_slice! / locales! invocation."""
+    tag = "" if tuple(features) == ("macros",) else "-" + "_".join(features)
+    d = crate_dir(name, features)
     src = [PRELUDE.replace("PROJ", os.path.join(HARNESS, "src", "proj.rs"))]
     src.append("fn main() {\n    std::panic::set_hook(Box::new(|_| {}));")
     n = 0
@@ -119,12 +123,22 @@ def gen_ok_crate(li_lits, loc_lits, subs):
         src.append("    { let names = [%s]; match catch_unwind(AssertUnwindSafe(|| { let v: Vec<Locale> = locales![%s%s]; v })) { Ok(v) => { for (x, nm) in v.into_iter().zip(names.iter()) { loc(\"locales\", nm, Ok(x)); } } Err(e) => loc(\"locales\", names[0], Err(e)) } }"
                    % (args, args, tc))
         n += len(chunk)
+    # one invocation with a long list: the whole list through each list macro at once
+    for chunk in long_lists:
+        args = ", ".join('"%s"' % s for s in chunk)
+        src.append("    { let names = [%s]; match catch_unwind(AssertUnwindSafe(|| { let v: Vec<LanguageIdentifier> = langids![%s]; v })) { Ok(v) => { if v.len() != names.len() { println!(\"{}\", json!({\"op\":\"macro\",\"m\":\"langids\",\"lit\":[],\"out\":{\"k\":\"panic\"},\"st\":[],\"rt_eq\":false})); } for (x, nm) in v.into_iter().zip(names.iter()) { li(\"langids\", nm, Ok(x)); } } Err(e) => li(\"langids\", names[0], Err(e)) } }"
+                   % (args, args))
+        src.append("    { let names = [%s]; match catch_unwind(AssertUnwindSafe(|| { let s: &[LanguageIdentifier] = langid_slice![%s,]; s.to_vec() })) { Ok(v) => { if v.len() != names.len() { println!(\"{}\", json!({\"op\":\"macro\",\"m\":\"langid_slice\",\"lit\":[],\"out\":{\"k\":\"panic\"},\"st\":[],\"rt_eq\":false})); } for (x, nm) in v.into_iter().zip(names.iter()) { li(\"langid_slice\", nm, Ok(x)); } } Err(e) => li(\"langid_slice\", names[0], Err(e)) } }"
+                   % (args, args))
+        src.append("    { let names = [%s]; match catch_unwind(AssertUnwindSafe(|| { let v: Vec<Locale> = locales![%s]; v })) { Ok(v) => { if v.len() != names.len() { println!(\"{}\", json!({\"op\":\"macro\",\"m\":\"locales\",\"lit\":[],\"out\":{\"k\":\"panic\"},\"st\":[],\"rt_eq\":false})); } for (x, nm) in v.into_iter().zip(names.iter()) { loc(\"locales\", nm, Ok(x)); } } Err(e) => loc(\"locales\", names[0], Err(e)) } }"
+                   % (args, args))
+        n += 3 * len(chunk)
     src.append("}")
     open(os.path.join(d, "src", "main.rs"), "w").write("\n".join(src) + "\n")
-    p = subprocess.run(["cargo", "build", "--release", "--offline"], cwd=d, env=cargo_env(), stdout=subprocess.PIPE, stderr=subprocess.STDOUT, text=True)
+    p = subprocess.run(["cargo", "build", "--release", "--offline"], cwd=d, env=cargo_env(tag), stdout=subprocess.PIPE, stderr=subprocess.STDOUT, text=True)
     if p.returncode != 0:
         return {"built": False, "log": p.stdout[-6000:], "invocations": n, "dir": d}
-    binp = os.path.join(cargo_env()["CARGO_TARGET_DIR"], "release", "macros_ok")
+    binp = os.path.join(cargo_env(tag)["CARGO_TARGET_DIR"], "release", name)
     trace = os.path.join(d, "events.ndjson")
     r = subprocess.run([binp], stdout=open(trace, "w"), stderr=subprocess.PIPE)
     return {"built": True, "rc": r.returncode, "trace": trace, "invocations": n, "dir": d}
